@@ -874,6 +874,169 @@ func c16Worker(c *shard.Ctx) {
 	}
 	c16Grammar2(c, a, &idx)
 	c16Grammar3(c, &idx)
+	c16Grammar4(c, &idx)
+}
+
+// ---------------------------------------------------------------------------
+// grammar 4: inheritance chains of three templates over a base with two blocks, every subset of blocks
+// overridden at the middle and at the leaf level, under four namings: three distinct names, the leaf loaded
+// under the base's name (a reloaded base that extends its own child), the leaf loaded under the middle
+// template's name (a second version layered on the first) and all three under one name.  After every load
+// every name the engine holds is rendered; the reference takes, per block, the override nearest to the
+// rendered template along the chain it was bound to when it was loaded.  (seed C16-e1)
+
+var c16ChainNamings = [][3]string{{"base", "mid", "leaf"}, {"base", "mid", "base"}, {"base", "mid", "mid"}, {"page", "page", "page"}}
+
+type c16Chain struct {
+	Naming int
+	Mid    int // bit 0: overrides x, bit 1: overrides y
+	Leaf   int
+}
+
+var c16ChainContent = [3][2]string{{"bx", "by {{v}}"}, {"mx {{v}}", "my"}, {"lx", "ly {{v}}"}}
+
+func (t c16Chain) text(level int) string {
+	n := c16ChainNamings[t.Naming]
+	if level == 0 {
+		return "H\n{{#block \"x\"}}" + c16ChainContent[0][0] + "{{/block}}\n{{#block \"y\"}}" + c16ChainContent[0][1] + "{{/block}}\nF {{v}}"
+	}
+	mask := t.Mid
+	if level == 2 {
+		mask = t.Leaf
+	}
+	s := "{{extends \"" + n[level-1] + "\"}}"
+	for b := 0; b < 2; b++ {
+		if mask&(1<<b) != 0 {
+			s += "{{#block \"" + c16BlockNames[b] + "\"}}" + c16ChainContent[level][b] + "{{/block}}"
+		}
+	}
+	return s
+}
+
+// want is the reference rendering of the template loaded at the given level (v = "V").
+func (t c16Chain) want(level int) []string {
+	out := []string{"H", "", "", "F V"}
+	for b := 0; b < 2; b++ {
+		src := 0
+		if level >= 1 && t.Mid&(1<<b) != 0 {
+			src = 1
+		}
+		if level >= 2 && t.Leaf&(1<<b) != 0 {
+			src = 2
+		}
+		out[1+b] = strings.ReplaceAll(c16ChainContent[src][b], "{{v}}", "V")
+	}
+	return out
+}
+
+func c16Grammar4(c *shard.Ctx, idx *int64) {
+	for naming := range c16ChainNamings {
+		for mid := 0; mid < 4; mid++ {
+			for leaf := 0; leaf < 4; leaf++ {
+				t := c16Chain{naming, mid, leaf}
+				desc := c16Desc{Grammar: "inheritance-chain", Base: t.text(0), Child: t.text(1) + "  ||  " + t.text(2), Data: fmt.Sprintf("names %v, v=V", c16ChainNamings[naming])}
+				my := c.Begin(*idx, func() interface{} { return desc })
+				i := *idx
+				*idx++
+				if !my {
+					continue
+				}
+				c16ChainCase(c, i, t, desc)
+			}
+		}
+	}
+}
+
+func c16ChainCase(c *shard.Ctx, idx int64, t c16Chain, desc c16Desc) {
+	p := c.P
+	key := rep.Hash("g4", fmt.Sprint(t))
+	p.Keys = append(p.Keys, key)
+	p.Nontrivial = append(p.Nontrivial, key)
+	p.Evals++
+	p.Traces++
+	names := c16ChainNamings[t.Naming]
+	document.VerifResetGlobals()
+	var eng *document.TemplateEngine
+	holder := map[string]int{} // name -> level of the template the name currently holds
+	for level := 0; level < 3; level++ {
+		fail := ""
+		pan := guard(func() {
+			if eng == nil {
+				eng = document.NewTemplateEngine()
+			}
+			if _, err := eng.LoadTemplate(names[level], t.text(level)); err != nil {
+				fail = "error:load: " + err.Error()
+			}
+		})
+		p.Transitions++
+		if pan != "" {
+			fail = "panic:" + panicClass(pan)
+		}
+		if fail != "" {
+			p.Outcome("chain-load=>" + strings.SplitN(fail, ":", 3)[0])
+			p.Violate(rep.Violation{Sig: fmt.Sprintf("chain-load|naming=%d|level=%d|%s", t.Naming, level, strings.SplitN(fail, ": ", 2)[0]), Clause: "a well-formed template loads",
+				What: fmt.Sprintf("LoadTemplate(%q, %q) after %d loads: %s", names[level], t.text(level), level, fail), Depth: int(idx), Case: shardCase(c, "c16", idx, desc)})
+			return
+		}
+		holder[names[level]] = level
+		rendered := map[string]bool{}
+		for _, name := range names[:level+1] {
+			if rendered[name] {
+				continue
+			}
+			rendered[name] = true
+			lv := holder[name]
+			want := t.want(lv)
+			var got []string
+			rfail := ""
+			pan := guard(func() {
+				td := document.NewTemplateData()
+				td.SetVariable("v", "V")
+				doc, err := eng.RenderToDocument(name, td)
+				if err != nil || doc == nil || doc.Body == nil {
+					rfail = fmt.Sprintf("error:render: %v", err)
+					return
+				}
+				for _, x := range doc.Body.GetParagraphs() {
+					var sb strings.Builder
+					for _, r := range x.Runs {
+						sb.WriteString(r.Text.Content)
+					}
+					got = append(got, sb.String())
+				}
+			})
+			p.Transitions++
+			if pan != "" {
+				rfail = "panic:" + panicClass(pan)
+			}
+			if rfail == "" && c16Eq(got, want) {
+				p.Outcome(fmt.Sprintf("chain-render=>match|level=%d", lv))
+				continue
+			}
+			culprit := rfail
+			if rfail == "" {
+				culprit = "paragraphs"
+				if len(got) == len(want) {
+					culprit = ""
+					for k := range want {
+						if got[k] != want[k] {
+							culprit += []string{"head", "block-x", "block-y", "foot"}[k] + "+"
+						}
+					}
+				}
+			} else {
+				culprit = strings.SplitN(rfail, ": ", 2)[0]
+			}
+			p.Outcome("chain-render=>differs")
+			same := "distinct-names"
+			if t.Naming > 0 {
+				same = "name-reused-in-chain"
+			}
+			p.Violate(rep.Violation{Sig: fmt.Sprintf("chain|%s|rendered-level=%d-of-%d|%s", same, lv, level, culprit), Clause: "render(template of an inheritance chain) = base text with every block replaced by the nearest override along the chain the template was bound to at load time",
+				What:  fmt.Sprintf("loads %v (texts %q, %q, %q; %d loaded): rendering %q gives paragraphs %q %s, the chain semantics gives %q", names[:level+1], t.text(0), t.text(1), t.text(2), level+1, name, got, rfail, want),
+				Depth: int(idx), Case: shardCase(c, "c16", idx, desc), Expect: want, Got: got})
+		}
+	}
 }
 
 // ---------------------------------------------------------------------------
@@ -1350,6 +1513,7 @@ func runC16(r *rep.Run) {
 	r.Bounds["value_classes_per_slot"] = names
 	r.Bounds["value_slots"] = c16SlotName
 	r.Bounds["data_layout"] = c16DataDoc
+	r.Bounds["inheritance_chains"] = "3 templates (base with blocks x,y; middle and leaf each overriding every subset) x 4 namings (distinct, leaf under the base's name, leaf under the middle's name, one name for all); every held name rendered after every load"
 	r.Bounds["inheritance_grammar"] = fmt.Sprintf("base with 1 or 2 blocks, surrounding text in {\"\",\"a\",\"\\n\"}, default/override content from %d fragments (empty, literal, variable, image placeholder, each, if, newline, if-else), child overriding every subset", a.G2Frags)
 	r.Rule = "every template tree of the grammar Lit | Var | If(cond, body[, else]) | Each(list, body) with item-scope nodes (field, this, @index, @first, @last, If(item bool field), nested Each(item list field)) up to the node bound, crossed with every assignment of the value classes to the value slots the template can observe; each pair rendered with LoadTemplate+RenderToDocument on a fresh engine (and, for the plain data of every template, also with RenderTemplateToDocument), paragraph texts compared with a reference interpreter evaluated on the generator's tree; then every base/child pair of the inheritance grammar (base alone, child after base). state key = template text (inheritance: base+child text); evaluations = template x data pairs; transitions = renders; non-trivial = the template contains at least one directive. A failing template is reduced with plain values to a 1-minimal failing template of the grammar (signature = failure kind + minimal template); a failure that disappears with plain values is attributed to the first slot whose value alone reproduces it (signature = value|slot kind=value class)"
 	r.Assume = []string{
@@ -1361,6 +1525,7 @@ func runC16(r *rep.Run) {
 		"inner loop bodies may use fields of the outer item (documented: inner loops can access outer loop variables)",
 		"literal text never forms directive syntax: two equal brace characters are never adjacent",
 		"in the inheritance grammar the child consists of the extends directive and block definitions only (the fate of other child text is not documented); image placeholders are generated only for names that have image data",
+		"inheritance chains: a template is bound to the template its extends directive names at the moment it is loaded (the reading C17 states as well); a name loaded again does not change templates already bound to the earlier holder of the name, and a template may extend the earlier holder of its own name",
 		"renders whose outcome depends on Go map iteration order (an item field value naming a sibling field) may or may not fail in a given run; when they fail they are attributed with repeated renders",
 	}
 	p0 := rep.NewPartial()
